@@ -1285,6 +1285,9 @@ package keyvalue
 //@   propagates [C14] getFile unless errIs(e, hackpadfs.ErrNotExist)
 //@   propagates [C14] Stat
 //@   propagates [C14] Commit
+//@   callsite Rename requires "each-listed-child-moves-to-the-same-name-below-the-destination" [C01 C03] arg0 == fs && rangeindex >= 0 && rangeindex < len(files) &&
+//@                     arg1 == pathJoin(oldname, files[rangeindex]) && arg2 == pathJoin(newname, files[rangeindex])
+//@   callsite setFile requires "directory-record-created-at-the-destination-removed-at-the-source" [C01 C03] arg0 == fs && ((arg1 == newname && arg2 == FileRecord(oldFile.fileData) && arg2 != nil) || (arg1 == oldname && arg2 == nil))
 //@   loop 1 modifies mapOf(ms(fs).records), held(ms(fs).mu), world()
 //@   loop 1 invariant "children-so-far-moved" !failed("Rename") && !failed("setFile") && !failed("setFileTxn") && !failed("ReadDirNames") && !failed("Data") && !failed("getFile") && !failed("Stat") && !failed("Commit") && !called("Commit")
 //@   loop 1 invariant "inv" fsOK(fs) && VP(oldname) && VP(newname) && rangeindex >= -1 && rangeindex < max(len(files), 1) && (len(files) > 0 || rangeindex == -1) && implies(isMem(fs), world() == old(world()))
